@@ -388,6 +388,10 @@ func init() {
 		m.block(func() bool { return m.sch.wgs[c] == 0 }, "sync.WaitGroup.Wait")
 		return nil
 	})
+	reg("runtime.Caller", func(m *Machine, fn *ssa.Function, args []Value) Value {
+		// no call-site information (net/http.ServeMux only uses it to word a conflict message)
+		return Tuple{m.C.BV(64, 0), Str{}, m.C.BV(64, 0), m.C.False}
+	})
 	reg("runtime.Gosched", func(m *Machine, fn *ssa.Function, args []Value) Value {
 		m.yield()
 		return nil
